@@ -473,13 +473,21 @@ pub fn run(r: &mut Report, ctx: &Ctx) {
                         let mut b = bgs[bg].1.clone();
                         a[pos] = (x01 >> 8) as u8;
                         a[pos + 1] = x01 as u8;
-                        // reference by additivity over bytes is the definition itself (sum over dibits)
+                        // the reference distance is a sum over dibits, hence over bytes: the part outside
+                        // the window is computed once, the window's two bytes are added per case
+                        b[pos] = 0;
+                        b[pos + 1] = 0;
+                        let outside = ref_dist_body(&a, &b) - ref_dist_body(&a[pos..pos + 2], &b[pos..pos + 2]);
                         for y01 in 0..=65535u16 {
                             b[pos] = (y01 >> 8) as u8;
                             b[pos + 1] = y01 as u8;
-                            if let Err(e) = judge_body_backends(backends, &a, &b) {
-                                acc.fail(idx * 65536 + y01 as u64, "body-w3", e, json!({"kind": "body", "a": hex(&a), "b": hex(&b)}));
-                                return;
+                            let expect = outside + ref_dist_body(&a[pos..pos + 2], &b[pos..pos + 2]);
+                            for be in backends.iter() {
+                                let real = body_backend(len, be, &a, &b);
+                                if real != Some(expect) {
+                                    acc.fail(idx * 65536 + y01 as u64, "body-w3", format!("body distance backend {be} ({len} bytes) = {real:?} but reference = {expect} (a={} b={})", hex(&a), hex(&b)), json!({"kind": "body", "a": hex(&a), "b": hex(&b)}));
+                                    return;
+                                }
                             }
                         }
                         acc.evals += 65536 * nb as u64;
